@@ -1,6 +1,7 @@
 package hotline
 
 import (
+	"bytes"
 	"crypto/sha256"
 	"encoding/binary"
 	"encoding/hex"
@@ -67,10 +68,12 @@ func (a *Account) Read(p []byte) (int, error) {
 }
 
 // bcryptInput returns what is handed to bcrypt for a password.  bcrypt reads at most 72 bytes and refuses to hash more,
-// so a longer password is replaced by the hex form of its SHA-256 digest; passwords of up to 72 bytes are passed through
-// unchanged, which keeps every stored hash valid.
+// so a longer password is replaced by the hex form of its SHA-256 digest; other passwords of up to 72 bytes are passed
+// through unchanged, which keeps their stored hashes valid.
 func bcryptInput(pwd []byte) []byte {
-	if len(pwd) <= 72 {
+	// bcrypt also terminates its key with a zero byte and reads it cyclically, so P and P 0x00 P hash alike: a password
+	// that contains a zero byte goes through the digest as well.
+	if len(pwd) <= 72 && !bytes.Contains(pwd, []byte{0}) {
 		return pwd
 	}
 
